@@ -26,16 +26,17 @@ DEST_DOCUMENTED = ("NoRemoteEntityCfgFound", "InvalidPduDirection", "InvalidDest
 class DstScenario:
     def __init__(self, ctx, w, *, mode, cktype=ChecksumType.CRC_32, closure=False, ids=None,
                  S=None, seg=None, crc=False, dst_name="/dst/file.bin", src_name="/src/file.bin",
-                 rig_kwargs=None):
+                 rig_kwargs=None, rig=None, vp=""):
         self.ctx, self.w = ctx, w
         self.ids = ids or Ids(2, 2)
         self.mode, self.cktype, self.closure, self.crc = mode, cktype, closure, crc
-        self.S = ctx.int("S", 0, OMAX) if S is None else S
+        self.vp = vp  # prefix of the harness variable names drawn by step()
+        self.S = ctx.int(vp + "S", 0, OMAX) if S is None else S
         self.seg = seg
         self.M = None
         self.dst_name, self.src_name = dst_name, src_name
-        self.rig = DestRig(w, self.ids, mode=mode, closure=closure, cktype=cktype,
-                           **(rig_kwargs or {}))
+        self.rig = rig or DestRig(w, self.ids, mode=mode, closure=closure, cktype=cktype,
+                                  **(rig_kwargs or {}))
         self.conf = rigs.pdu_conf(self.ids, mode, crc=crc)
         self.tid = TransactionId(self.ids.src, self.ids.seq)
         self.n = 0
@@ -123,9 +124,27 @@ class DstScenario:
         o = self.rig.cancel(self.tid if tid is None else tid)
         return self._done(o, ("CANCEL", "own" if tid is None else "other"))
 
+    def replay_on(self, ev):
+        """re-issue a recorded event (same, possibly symbolic, values) on this scenario"""
+        k = ev[0]
+        if k == "MD":
+            return self.md()
+        if k == "FD":
+            return self.fd(ev[1], ev[2], corrupt=ev[3])
+        if k == "EOF":
+            return self.eof(size=ev[2], cond=ConditionCode(ev[1]))
+        if k == "ACKFIN":
+            return self.ack_fin()
+        if k == "TICK":
+            # the clock is global and was advanced when the event was first issued
+            return self._done(self.rig.sm(None), ("TICK", ev[1]))
+        if k == "CANCEL":
+            return self.cancel()
+        raise symex.HarnessError(f"cannot replay {ev}")
+
     # -- generic event chooser
     def step(self, alphabet):
-        i = self.n
+        i = f"{self.vp}{self.n}"
         self.n += 1
         ctx = self.ctx
         kind = ctx.pick(f"e{i}", list(alphabet))
